@@ -242,8 +242,41 @@ def report_mux(prop, tier, tags, res, cases, stats, t0, known, level, mc_cfgs):
     finish(prop, viol, kn)
 
 
+def reject_cases(rng, tag):
+    """histories in which the muxer refuses calls for arithmetic reasons and is then used further: what it
+    refused leaves no trace (C01), the output stays well-formed (C02) and keeps its configuration (C14), nothing
+    panics (C17).  The trace specification takes `err` answers as they come: nothing here says which call fails."""
+    U = 0xFFFFFFFF
+    out = []
+
+    def wr(t, dur, ln=2, sync=True):
+        return {"op": "write", "t": t, "len": ln, "fill": rng.randrange(1 << 24), "dur": big(dur), "cts": 0, "sync": sync, "valid": True}
+
+    def hist(confs, writes, mts):
+        out.append({"id": "%s-%d" % (tag, len(out)), "seed": len(out),
+                    "cfg": {"major": s4("isom"), "minor": big(512), "brands": [s4("isom")], "timescale": big(mts)}, "pos": [],
+                    "calls": [{"op": "add", "conf": c} for c in confs] + writes})
+    # track duration (media duration x movie timescale / track timescale) beyond 64 bits: 1, 2, 3, 4 refused
+    # samples after an accepted one, then the end -- or a further sample that is accepted
+    for kind in ("avc", "aac", "ttxt"):
+        for nrej in (1, 2, 3, 4):
+            hist([full_conf(kind, 1, rng)], [wr(1, U)] + [wr(1, U) for _ in range(nrej)], U)
+            hist([full_conf(kind, 1, rng), full_conf("aac", 48000, rng)],
+                 [wr(1, U), wr(2, 1024)] + [wr(1, U) for _ in range(nrej)] + [wr(2, 1024), wr(1, 0), wr(2, 1024)], U)
+    # media duration beyond 64 bits cannot be reached with few samples; track timescale 2 / 3 with a huge movie timescale
+    for tts in (2, 3):
+        hist([full_conf("hevc", tts, rng)], [wr(1, U), wr(1, U), wr(1, U), wr(1, 1), wr(1, U), wr(1, 0)], U)
+    # two tracks of different timescales: the one with most media ticks is not the one that lasts longest
+    for (ts1, d1, n1, ts2, d2, n2, mts) in ((90000, 30000, 3, 1000, 1000, 3, 1000), (1000, 500, 2, 48000, 1024, 100, 600), (1, 1, 5, U, U, 1, 1000)):
+        hist([full_conf("avc", ts1, rng), full_conf("aac", ts2, rng)],
+             [wr(1, d1) for _ in range(n1)] + [wr(2, d2) for _ in range(n2)], mts)
+        hist([full_conf("aac", ts2, rng), full_conf("vp9", ts1, rng)],
+             [wr(1, d2) for _ in range(n2)] + [wr(2, d1) for _ in range(n1)], mts)
+    return out
+
+
 def c01_extra(tier, rng):
-    cases = duration_cases(rng, "dur")
+    cases = duration_cases(rng, "dur") + reject_cases(rng, "rej")
     # more than 4 GiB of media data (64-bit media data header), the small samples around it read back
     H = 1 << 31
     calls = [{"op": "add", "conf": full_conf("avc", 1000, rng)}, {"op": "add", "conf": full_conf("aac", 48000, rng)}]
@@ -295,7 +328,8 @@ def mdat_boundary_cases(tier, rng):
 
 @check("C02")
 def c02(prop, tier, replay):
-    mux_family(prop, tier, replay, {"C02"}, extra_cases=mdat_boundary_cases(tier, random.Random(seed())))
+    rng = random.Random(seed())
+    mux_family(prop, tier, replay, {"C02"}, extra_cases=mdat_boundary_cases(tier, rng) + reject_cases(rng, "rej"))
 
 
 # ----------------------------------------------------------------------------------------
@@ -403,7 +437,8 @@ def duration_cases(rng, tag):
 
 
 def c14_cases(tier, rng):
-    cases = duration_cases(rng, "cfgdur")
+    cases = duration_cases(rng, "cfgdur") + reject_cases(rng, "cfgrej") \
+        + [dict(c, id="cfg" + c["id"]) for c in c01_extra(tier, rng) if c["id"].startswith("addrej")]
     n = 0
     # all audio object types x frequency indices x channel layouts
     combos = [(a, f, c) for a in AOTS for f in range(13) for c in range(1, 8)]
@@ -572,7 +607,7 @@ def c17(prop, tier, replay):
         report_mux(prop, tier, tags, res, cases, [], t0, known, "model_checking", [])
         return
     stats, gen = mux_generate(tier, wd, rng, ["MC_MuxImpl_q", "MC_MuxImpl_fault"])
-    cases = c17_cases(tier, rng)
+    cases = c17_cases(tier, rng) + reject_cases(rng, "rej")
     # histories of the model in which the stream fails during write_sample calls, replayed
     for cfg, mcs in gen:
         if cfg != "MC_MuxImpl_fault":
@@ -653,6 +688,48 @@ def distinct_files(cases):
     return len({hashlib.sha1(bytes(c["file"])).hexdigest() for c in cases})
 
 
+def uniform_cases(tier, rng):
+    """uniform table sets (spec/Uniform.tla) with sample counts up to the 2^32 - 1 of the count field"""
+    U = (1 << 32) - 1
+    cases = []
+
+    def case(n, size, delta, cts, spc, gap, co64):
+        ks = sorted(set([0, 1, 2, spc, spc + 1, 2 * spc, 2 * spc + 1, n // 2, max(n - 1, 0), n, n + 1]
+                        + [rng.randrange(1, n + 1) for _ in range(4) if n > 0]))
+        c = {"id": "uni-%d" % len(cases), "prop": "C03", "uniform": True, "n": big(n), "size": size, "delta": big(delta), "spc": big(spc),
+             "gap": gap, "co64": co64, "ks": [big(k) for k in ks if k <= U]}
+        if cts is not None:
+            c["cts"] = cts
+        cases.append(c)
+    case(5, 3, 7, None, 2, 0, True)
+    case(0, 1, 1, None, 1, 0, True)
+    case(U, 1, 1, None, 1 << 22, 0, True)
+    case(U, 1, U, -3, 1 << 22, 5, True)
+    case(U, 2, 3, 7, (1 << 23) + 1, 0, True)
+    case(U - 1, 1, U, 9, 1 << 22, 0, True)
+    case(1 << 31, 1, 1000, None, 1 << 21, 0, False)
+    case((1 << 31) - 1, 3, 2, -1, (1 << 21) + 1, 7, True)
+    case(1 << 16, 5, 0, 1, 1 << 16, 0, False)
+    for _ in range(6 if tier == "quick" else 300):
+        n = rng.choice([U, U - rng.randrange(3), (1 << 31) + rng.randrange(-2, 3), rng.randrange(1, U), rng.randrange(1, 1 << 20)])
+        spc = max(1, n // rng.randrange(1, 1500) + rng.randrange(2))
+        case(n, rng.choice([1, 1, 2, 7]), rng.choice([0, 1, 1024, U]), rng.choice([None, None, -1, 5, -(1 << 31), (1 << 31) - 1]),
+             spc, rng.choice([0, 0, 3]), True)
+    return cases
+
+
+def uniform_leg(tier, rng, wd, only=None):
+    """leg A: the closed form is SampleTable!Sem on every small instance; leg C: the real reader on huge ones"""
+    r = tlc_mc("MC_Uniform", "MC_Uniform", wd, workers=4, timeout=600, coverage=False)
+    if r["violated"] or not r["ok"]:
+        raise ToolError("Uniform: %s\n%s" % (r["violated"], r["tail"][-2000:]))
+    st = {"cfg": "MC_Uniform", "states": r["states"], "distinct": r["distinct"], "depth": r["depth"], "cases": 0, "actions": r["actions"],
+          "wall": round(r["wall"], 1)}
+    cases = only if only is not None else uniform_cases(tier, rng)
+    res = validate_sharded("Trace_Uniform", cases, wd, "uniform", 2, runner="uniform-run")
+    return st, cases, res
+
+
 @check("C03")
 def c03(prop, tier, replay):
     t0 = time.time()
@@ -661,7 +738,10 @@ def c03(prop, tier, replay):
     known = load_known()
     if replay:
         cases = [json.load(open(replay))]
-        res = validate_sharded("Trace_Read", cases, wd, "replay", 1, runner="read-run")
+        if cases[0].get("uniform"):
+            stu, cases, res = uniform_leg(tier, rng, wd, only=cases)
+        else:
+            res = validate_sharded("Trace_Read", cases, wd, "replay", 1, runner="read-run")
         report_read(prop, tier, res, cases, [], t0, known, "model_checking", "replay", 2)
         return
     st, mcs = gen_mc("MC_Lookup", "MC_Lookup_q" if tier == "quick" else "MC_Lookup_t", wd, tier, need_actions=("Step",))
@@ -681,11 +761,19 @@ def c03(prop, tier, replay):
     mp4v(["tables-gen", str(seed()), str(nrand), rp])
     cases += read_ndjson(rp)
     res = validate_sharded("Trace_Read", cases, wd, "lookup", 6 if tier == "quick" else 16, runner="read-run")
-    report_read(prop, tier, res, cases, [st, stb], t0, known, "model_checking",
+    # uniform table sets with up to 2^32 - 1 samples, judged by the closed form of the semantics (Uniform.tla)
+    stu, ucases, ures = uniform_leg(tier, rng, wd)
+    cases += ucases
+    res["fails"] += ures["fails"]
+    for k in ("events", "runs", "states"):
+        res[k] += ures[k]
+    report_read(prop, tier, res, cases, [st, stb, stu], t0, known, "model_checking",
                 "every consistent sample-table set of the bounded space (all chunk compositions, stsc encodings, size vectors, "
-                "stts/ctts encodings, sync subsets, placements; n <= %d) rendered to a file by the specification, plus seeded "
-                "random large table sets; distinct = distinct file bytes; non-trivial = at least 2 samples" % (3 if tier == "quick" else 4),
-                sum(1 for c in cases if c.get("n", 2) >= 2), {"distinct_files": distinct_files(cases), "exhaustive": True})
+                "stts/ctts encodings incl. zero-length runs, sync subsets, placements; n <= %d) rendered to a file by the specification, plus seeded "
+                "random large table sets, plus uniform table sets with up to 2^32 - 1 samples (closed form of the semantics, checked "
+                "against SampleTable!Sem for n <= 7); distinct = distinct file bytes; non-trivial = at least 2 samples" % (3 if tier == "quick" else 4),
+                sum(1 for c in cases if (frombig(c["n"]) if isinstance(c.get("n"), list) else c.get("n", 2)) >= 2),
+                {"distinct_files": distinct_files([c for c in cases if "file" in c]) + len(ucases), "exhaustive": True})
 
 
 def frag_cases(mcs, name, prop="C09"):
@@ -985,6 +1073,32 @@ def c15(prop, tier, replay):
                 calls = [{"op": op, "t": 1, "k": k} for k in range(0, n + 2) for op in ("read", "offset")]
                 cases.append({"file": a["file"], "expect_ok": True, "other": {"file": b["file"]}, "id": "two-%d" % npair, "prop": "C15", "calls": calls})
                 npair += 1
+    # files whose tables are NOT mutually consistent (the specification does not say what their samples are, only
+    # that the answers do not depend on the history): every call compared with the same call on a fresh reader
+    def patched(b, tag, at, new):
+        i = b.find(tag)
+        if i < 0:
+            return None
+        d = bytearray(b)
+        d[i + at:i + at + len(new)] = new
+        return list(d)
+    H = (1 << 31).to_bytes(4, "big")
+    dmg = []
+    for c in [c for c in lk if c["place"] == "asc" and c["n"] == 3]:
+        b = bytes(c["file"])
+        i = b.find(b"ctts")
+        if i > 0 and int.from_bytes(b[i + 8:i + 12], "big") == 2 and len(dmg) < 2:
+            # two composition-offset runs of 2^31 samples each (their sum does not fit 32 bits)
+            dmg.append(patched(bytes(patched(b, b"ctts", 12, H)), b"ctts", 20, H))
+        j = b.find(b"stts")
+        if j > 0 and int.from_bytes(b[j + 8:j + 12], "big") == 2 and len(dmg) < 4:
+            dmg.append(patched(bytes(patched(b, b"stts", 12, H)), b"stts", 20, H))
+    if len(dmg) < 2:
+        raise ToolError("vacuity: no table set with two ctts / stts runs to damage")
+    sched = [1, 1, 2, 3, 1, 2, 0, 4, 3, 3]
+    for i, f in enumerate(d for d in dmg if d):
+        calls = [{"op": op, "t": 1, "k": k} for k in sched for op in ("read", "offset")] + [{"op": "count", "t": 1}]
+        cases.append({"file": f, "expect_ok": False, "fresh": True, "id": "dmg-%d" % i, "prop": "C15", "calls": calls})
     res = validate_sharded("Trace_Read", cases, wd, "sched", 6 if tier == "quick" else 16, runner="read-run")
     # (3) determinism: muxing the same history twice, opening the same bytes twice (events `twice` of the mux suite)
     rp = os.path.join(wd, "random-cases.ndjson")
@@ -1073,7 +1187,7 @@ def c11(prop, tier, replay):
                   if c["delivery"] == "one" and c["durMode"] == dm and c["base"] == "moof" and not c["mdatFirst"] and c["nfrag"] >= 2][:1 if tier == "quick" else 4]
     # runs of unequal length whose total is a multiple of the number of fragments (3+1, 4+4+1): a prefix has
     # another total and another number of fragments
-    for shape in ([[[1, 3]], [[1, 1]]], [[[1, 4]], [[1, 4]], [[1, 1]]]):
+    for shape in ([[[1, 3]], [[1, 1]]], [[[1, 4]], [[1, 4]], [[1, 1]]], [[[1, 2]], [[1, 0]], [[1, 0]], [[1, 2]]]):
         pick = [c for c in mx if c["st"] == [[list(tf) for tf in fg] for fg in shape] and c["delivery"] == "one" and c["base"] == "moof" and not c["mdatFirst"]]
         if not pick:
             raise ToolError("vacuity: no fragmented file with the runs %s" % shape)
@@ -1272,6 +1386,13 @@ def robust_bases(tier, wd, rng):
     bases.append({"file": m1["file"], "fields": m1["fields"], "kind": "spec-rendered movie, metadata with unknown handler"})
     m2 = [c for c in me if c["shape"] == "mdir" and c["year"] == "bin0" and c["hdr"] == "small" and c["mmeta"] == "none"][0]
     bases.append({"file": m2["file"], "fields": m2["fields"], "kind": "spec-rendered movie, metadata with an empty binary year"})
+    m3 = [c for c in me if c["shape"] == "mdir" and c["year"] == "int0" and c["hdr"] == "small" and c["mmeta"] == "none" and c["unk"] == "kids"][0]
+    bases.append({"file": m3["file"], "fields": m3["fields"], "kind": "spec-rendered movie, metadata with an empty integer-typed year, items with further children"})
+    # more track fragments than samples
+    st, fx = gen_mc("MC_Frag", "MC_Frag_extra", wd, tier, coverage=False)
+    stats.append(st)
+    x0 = [c for c in fx if c["st"] == [[[1, 2]], [[1, 0]], [[1, -1]]] and c["delivery"] == "one" and c["base"] == "moof" and c["durMode"] == "per" and not c["mdatFirst"]][0]
+    bases.append({"file": x0["file"], "fields": [], "kind": "spec-rendered fragmented movie, three track fragments holding two samples"})
     bases.append({"file": canned("minimal.mp4"), "fields": [], "kind": "canned minimal.mp4"})
     bases.append({"file": canned("minimal_fragment.m4s"), "init": canned("minimal_init.mp4"), "fields": [], "kind": "canned fragment against canned init"})
     bases.append({"file": canned("extended_audio_object_type.mp4"), "fields": [], "kind": "canned extended_audio_object_type.mp4", "region": [0, 64]})
